@@ -953,4 +953,13 @@ static void generate(Rng &rng, const Opts &o, std::vector<std::string> &lines) {
     lines.push_back("comp_defl 1 2 2 1 0 1 1 1 1 1 3 1 1 1 0 0 0 2 1 1 2 0 0");                  // deflation vector of wrong size
 }
 
-VH_MAIN(generate, execute)
+// Entry point.  The harness switches the OpenMP thread count per case (omp_set_num_threads(1..4)) on a machine shared with
+// other jobs: libgomp's default ACTIVE wait policy lets the workers spin at the end of every (tiny) parallel region; with
+// more runnable threads than cores a region then costs a scheduler time slice instead of microseconds (measured: 300 cases
+// in 63 s instead of 3 s).  The policy is read when libgomp is loaded, so the process re-executes itself once with
+// OMP_WAIT_POLICY=passive.  Results do not depend on the wait policy.
+#include <unistd.h>
+int main(int argc, char **argv) {
+    if (!getenv("OMP_WAIT_POLICY")) { setenv("OMP_WAIT_POLICY", "passive", 1); setenv("GOMP_SPINCOUNT", "0", 1); execv("/proc/self/exe", argv); }
+    return vh::harness_main(argc, argv, generate, execute);
+}
